@@ -79,7 +79,10 @@ def cfuse (x y : BOp α) : Except Label (BOp α) :=
   let u := (x.u * y.u) / kappa
   let a :=
     if isOne x.u && isOne y.u then (x.a + y.a) / two
-    else (x.a * y.u + y.a * x.u - (x.a + y.a) * uu) / (kappa - uu)
+    else
+      let ca := one - x.u
+      let cb := one - y.u
+      (x.a * y.u * ca + y.a * x.u * cb) / (y.u * ca + x.u * cb)
   tryNew b d u a
 
 /-- `BOpinion::afuse` (src/bi.rs:209-228) -/
@@ -104,13 +107,13 @@ def wfuse (x y : BOp α) (ga : α) : Except Label (BOp α) :=
   else if isOne x.u && isOne y.u then
     tryNew zero zero one ((x.a + y.a) / two)
   else
-    let denom := x.u + y.u - two * x.u * y.u
     let ca := one - x.u
     let cb := one - y.u
+    let denom := ca * y.u + cb * x.u
     let b := (x.b * ca * y.u + y.b * cb * x.u) / denom
     let d := (x.d * ca * y.u + y.d * cb * x.u) / denom
-    let u := (two - x.u - y.u) * x.u * y.u / denom
-    let a := (x.a * ca + y.a * cb) / (two - x.u - y.u)
+    let u := (ca + cb) * x.u * y.u / denom
+    let a := (x.a * ca + y.a * cb) / (ca + cb)
     tryNew b d u a
 
 /-- branch tags of `deduce` (for coverage accounting) -/
